@@ -16,9 +16,10 @@ from vlib import gen
 from vlib.extract import Package
 
 SDL = """
-type Query { ping(id: ID, n: Int, tags: [String!], f: Filter, e: Color, fs: [Filter!], camelCase: Int, in: String, _under: Int, opt: [[Int]], req: [Int], rec: Rec, d: Date, b: Boolean, ni: Int, mix: [Filter], grid: [[Filter!]], Query: String, Variables: Int, _response: String, DATA: Int, operationName: String): Int }
+type Query { ping(gql: Int, h: Hex, hreq: Hex, id: ID, n: Int, tags: [String!], f: Filter, e: Color, fs: [Filter!], camelCase: Int, in: String, _under: Int, opt: [[Int]], req: [Int], rec: Rec, d: Date, b: Boolean, ni: Int, mix: [Filter], grid: [[Filter!]], Query: String, Variables: Int, _response: String, DATA: Int, operationName: String): Int }
 enum Color { RED GREEN in }
 scalar Date
+scalar Hex
 input Filter { a: Int! = 3, b: [Filter!], c: Color = GREEN, camelCase: String, in: Int, _id: ID, _Rank: Int }
 input Rec { v: Int, next: Rec }
 """
@@ -31,11 +32,17 @@ query V5($d: Date, $b: Boolean!, $ni: Int! = 7) { ping(d: $d, b: $b, ni: $ni) }
 query V6($mix: [Filter], $grid: [[Filter!]]) { ping(mix: $mix, grid: $grid) }
 query V7($Query: String, $Variables: Int, $_response: String) { ping(Query: $Query, Variables: $Variables, _response: $_response) }
 query V8($DATA: Int, $operationName: String) { ping(DATA: $DATA, operationName: $operationName) }
+query V9($h: Hex, $hreq: Hex!) { ping(h: $h, hreq: $hreq) }
+query Va($gql: Int) { ping(gql: $gql) }
 """
 OMIT, NULL = "__omit__", "__null__"
 
 # per variable: list of (label, python value builder(pkg), expected JSON); OMIT/NULL are added from the variable's type
 VALUES = {
+    # Hex is configured with type int and serialize=hex: the wire value is hex(value), also for the falsy value 0
+    "h": [("v", lambda p: 255, "0xff"), ("zero", lambda p: 0, "0x0")],
+    "hreq": [("v", lambda p: 16, "0x10"), ("zero", lambda p: 0, "0x0")],
+    "gql": [("i", lambda p: 3, 3)],
     "id": [("s", lambda p: "abc", "abc")],
     "n": [("i", lambda p: 5, 5), ("z", lambda p: 0, 0)],
     "tags": [("l0", lambda p: [], []), ("l2", lambda p: ["a", "b"], ["a", "b"])],
@@ -74,7 +81,8 @@ try:
         for _async in (False, True):
             for _snake in (True, False):
                 _name = f"p03_{int(_async)}{int(_snake)}"
-                _r = gen.generate({"schema": SDL, "queries": OPS, "config": {"async_client": _async, "convert_to_snake_case": _snake, "target_package_name": _name}})
+                _r = gen.generate({"schema": SDL, "queries": OPS, "config": {"async_client": _async, "convert_to_snake_case": _snake, "target_package_name": _name,
+                                                                            "scalars": {"Hex": {"type": "int", "serialize": "hex"}}}})
                 if not _r["ok"]:
                     raise RuntimeError(f"generation failed: {_r['exc_type']}: {_r['exc_msg']}")
                 _d = os.path.join(_BASE, _name)
@@ -129,6 +137,21 @@ class ARec(Rec):
         return "RESP"
 
 
+def arg_of(mi, expr):
+    """the method parameter a variables-dict value is computed from: the parameter itself or an expression over exactly one
+    parameter (serialize(arg) for configured scalars)"""
+    import ast
+
+    if expr is None:
+        return None
+    params = {a[0] for a in mi.args}
+    try:
+        used = {n.id for n in ast.walk(ast.parse(expr, mode="eval")) if isinstance(n, ast.Name) and n.id in params}
+    except SyntaxError:
+        return None
+    return next(iter(used)) if len(used) == 1 else None
+
+
 def call(is_async, snake, opname, chosen):
     pkg = _PKGS[(is_async, snake)]
     mi = _META[(is_async, snake)][opname]
@@ -141,9 +164,9 @@ def call(is_async, snake, opname, chosen):
     for (name, _states), st in zip(var_states(opname), chosen):
         if st[2] is OMIT:
             continue
-        pyname = mi.variables.get(name)
-        if pyname is None or not pyname.isidentifier():
-            return None, f"variable {name} has no plain python argument in the generated variables dict: {mi.variables_src}"
+        pyname = arg_of(mi, mi.variables.get(name))
+        if pyname is None:
+            return None, f"variable {name} is not bound to one python argument in the generated variables dict: {mi.variables_src}"
         kwargs[pyname] = st[1](pkg)
     meth = getattr(client, mi.name)
     try:
@@ -171,7 +194,7 @@ def required_without_default(is_async, snake, opname):
         name = vd.variable.name.value
         t = type_from_ast(SCHEMA, vd.type)
         if isinstance(t, GraphQLNonNull) and vd.default_value is None:
-            py = mi.variables.get(name)
+            py = arg_of(mi, mi.variables.get(name))
             arg = next((a for a in mi.args if a[0] == py), None)
             if arg is None or arg[2] is not None:
                 bad.append(name)
@@ -193,6 +216,12 @@ def _check(is_async, snake, op, s0, s1, s2):
                                      for vd, st in zip(OPDEFS[opname].variable_definitions, sel))
             if nn_default_omitted and "missing 1 required positional argument" in err:
                 return known("C03-nonnull-variable-with-default-required")
+            if opname == "Va" and "object is not callable" in err:
+                return known("C03-variable-named-gql")
+            ser_on_absent = any(name == "h" and (st[2] is OMIT or st[2] is None) for (name, _), st in zip(vs, sel))
+            if ser_on_absent and "call failed: TypeError" in err:
+                # the generated method calls serialize(arg) for a nullable top-level variable that is None / omitted (C07 lists it)
+                return known("C03-serialize-called-for-null-or-omitted")
             return False
         expected = {name: st[2] for (name, _), st in zip(vs, sel) if st[2] is not OMIT}
         if body.get("operationName") != opname or body.get("variables") != expected:
